@@ -4,7 +4,7 @@ lookup_index} (rlbox_app_pointer.hpp:30-90), app_pointer::{move ctor, operator=,
 (rlbox_policy_types.hpp:176-272), rlbox_sandbox::get_app_pointer / lookup_app_ptr (rlbox_sandbox.hpp:987-1020).
 Abstract view of the table: the M-map arrays present[token], val[token] over the whole token space."""
 from vlib.unit import Unit, Inst, find_func, member_callees
-from .common import cs, PRE_GHOST, mi
+from .common import cs, PRE_GHOST, mi, trait_inst
 
 PROP = 'C15'
 TITLE = 'App-pointer tokens are non-zero, bounded, unique and resolve to their pointer'
@@ -252,6 +252,9 @@ def units(tier):
     for t in ['unsigned char']:
         insts += [unused_index_inst(t, tier), get_idx_inst(t, tier), remove_inst(t, tier), lookup_inst(t, tier), ctor_inst(t, tier)]
     insts += owner_insts(tier) + sandbox_insts(tier)
+    # the ownership argument (one owner per token) relies on there being no other way to make an owner: not copyable
+    insts.append(trait_inst('c15_owner_is_not_copyable', PROP, 'std::is_copy_constructible_v<app_pointer<int*, vsbx>> || std::is_copy_assignable_v<app_pointer<int*, vsbx>>', 0,
+                            'a_token_owner_cannot_be_copied', tier))
     return [Unit('C15_app_pointer_tokens', insts)]
 
 
